@@ -316,10 +316,10 @@ class TimeFixedGFormula:
                 self.marginal_outcome = np.average(g[self.outcome], weights=g[self._weights])
             elif self.standardize == 'exposed':
                 self.marginal_outcome = np.average(g.loc[self.gf[self.exposure] == 1, self.outcome],
-                                                   weights=g[self._weights])
+                                                   weights=g.loc[self.gf[self.exposure] == 1, self._weights])
             else:
                 self.marginal_outcome = np.average(g.loc[self.gf[self.exposure] == 0, self.outcome],
-                                                   weights=g[self._weights])
+                                                   weights=g.loc[self.gf[self.exposure] == 0, self._weights])
 
     def fit_stochastic(self, p, conditional=None, samples=100, predict_missing=True, seed=None):
         """Fits the g-formula for a stochastic intervention. As currently implemented, `p` percent of the population
@@ -411,10 +411,10 @@ class TimeFixedGFormula:
                     marginals.append(np.average(g[self.outcome], weights=g[self._weights]))
                 elif self.standardize == 'exposed':
                     marginals.append(np.average(g.loc[self.gf[self.exposure] == 1, self.outcome],
-                                                weights=g[self._weights]))
+                                                weights=g.loc[self.gf[self.exposure] == 1, self._weights]))
                 else:
                     marginals.append(np.average(g.loc[self.gf[self.exposure] == 0, self.outcome],
-                                                weights=g[self._weights]))
+                                                weights=g.loc[self.gf[self.exposure] == 0, self._weights]))
 
         self.marginal_outcome = np.mean(marginals)
 
